@@ -171,6 +171,75 @@ f = fn(d: int) -> int {
 print f(5)
 print x
 """),
+    ("shadow_local_then_modify_writes_captured_module_owner", """
+level = 1
+raise = fn() -> int {
+  level = 10
+  modify level = 20
+  return level
+}
+print raise()
+print level
+plain = fn() -> int {
+  modify level = level + 1
+  return level
+}
+print plain()
+print level
+print raise()
+print level
+"""),
+    ("shadow_local_then_modify_in_factory_step_idiom", """
+make = fn() -> [fn() -> int...] {
+  counter = 0
+  bump = fn() -> int {
+    counter = counter + 1
+    modify counter = counter
+    return counter
+  }
+  peek = fn() -> int {
+    return counter
+  }
+  return [bump, peek]
+}
+fs = make()
+bump = fs[0]
+peek = fs[1]
+print bump()
+print peek()
+print bump()
+print bump()
+print peek()
+"""),
+    ("modify_then_shadow_local_same_activation", """
+x = 5
+f = fn(d: int) -> int {
+  modify x = x + d
+  x = 100
+  x += d
+  return x
+}
+print f(2)
+print x
+print f(3)
+print x
+"""),
+    ("shadow_in_block_then_modify_outside_block", """
+x = 5
+f = fn(d: int) -> int {
+  t = true
+  if t {
+    x = d
+    modify x = x * 3
+  }
+  modify x = x + 1
+  return x
+}
+print f(2)
+print x
+print f(4)
+print x
+"""),
     ("factory_instances_independent", """
 mk = fn() -> [fn() -> int, fn(int) -> int] {
   n = 0
